@@ -20,6 +20,7 @@ RULE += " Kept handles and emptied/kept report copies as in C01 (also in the por
 RULE += ' Odd-case / colliding asset symbols in a fifth of the cases.'
 RULE += ' Every third step of the direct Position histories rebuilds the position through the public constructor from its own quantities, averages and commissions; the copy must report the same P&L figures.'
 RULE += ' Round 11: whole-number commissions arrive as ints too (ladder and broker workloads); after a refused direct fill or mark the (total, realised, unrealised) P&L triple of every portfolio is unchanged (pnl-changed-by-refused-request).'
+RULE += " Round 12: wide portfolios as in C02, judged on P&L: total = market value - cost of the fills since each opening - commissions, total = realised + unrealised, and each aggregate equals the sum of the positions' own figures."
 ASSUMPTIONS = [
     'tolerance 1e-9 x (sum |price x quantity| + |market value| + commissions + 1); measured error ~1e-14',
     'the statement is algebraic over the reals; monitoring shows it on every path class with many real draws, not for all reals',
